@@ -526,6 +526,11 @@ func (c *Compiler) compileDefine(
 	if !allowRedefine && exists && ident != "_" {
 		return c.errorf(node, "%q redeclared in this block", ident)
 	}
+	if exists && symbol.Scope != ScopeLocal && symbol.Scope != ScopeConstLit {
+		// only a local variable can be defined again (destructuring), the
+		// index of any other symbol is not a local slot.
+		return c.errorf(node, "%q redeclared in this block", ident)
+	}
 
 	if symbol.Constant {
 		return c.errorf(node, "assignment to constant variable %q", ident)
